@@ -6,6 +6,7 @@ import (
 
 	"github.com/fxamacker/cbor/v2"
 
+	"github.com/0chain/common/core/encryption"
 	"github.com/0chain/common/core/util/wmpt"
 
 	"verifharness/vp"
@@ -130,7 +131,7 @@ func H_Proof() {
 	vp.Observe("honest", err == nil, bytes.Equal(hash, trusted))
 
 	// forgery part: start from the honest proof of any block b2 of the same trie
-	kind := vp.Choose("tamper", vp.Param("tampers", 7))
+	kind := vp.Choose("tamper", vp.Param("tampers", 8))
 	if kind == 0 {
 		vp.Cover("C10.done")
 		return
@@ -258,6 +259,35 @@ func H_Proof() {
 		}
 		pt.Pairs[i].Value = encodeNode(pn)
 	}
+	if kind == 7 {
+		// substitute a branch element by a VALUE node whose value is the concatenation of the
+		// branch's child hashes and whose weight is the branch's weight, and end the proof there
+		// (node hashes carry no type tag)
+		i := vp.Choose("elem", np)
+		pn := decodeNode(pt.Pairs[i].Value)
+		if pn.Branch == nil {
+			vp.Assume(false)
+		}
+		var val []byte
+		var w uint64
+		for _, c := range pn.Branch.Children {
+			if len(c) >= 40 {
+				val = append(val, c[:32]...)
+				var cw uint64
+				for q := 32; q < 40; q++ {
+					cw = cw<<8 | uint64(c[q])
+				}
+				w += cw
+			} else {
+				val = append(val, encryption.EmptyHashBytes...)
+			}
+		}
+		for len(val) < 16*32 {
+			val = append(val, encryption.EmptyHashBytes...)
+		}
+		fake := &wmpt.PersistNodeBase{Value: &wmpt.PersistNodeValue{Value: val, Hash: pn.Branch.Hash, Weight: w}}
+		pt.Pairs = append(append([]*wmpt.PersistTriePair{}, pt.Pairs[:i]...), &wmpt.PersistTriePair{Value: encodeNode(fake)})
+	}
 	forged := encodePairs(pt)
 	var fh, fv []byte
 	var ferr error
@@ -267,6 +297,7 @@ func H_Proof() {
 	accepted := ferr == nil && bytes.Equal(fh, trusted)
 	vp.Observe("forged", kind, accepted)
 	vp.Known("C10.no-forgery", "reweight-sum-preserved", vp.And(kind == 1, region))
+	vp.Known("C10.no-forgery", "branch-as-value-node", kind == 7)
 	if accepted {
 		vp.Assert("C10.no-forgery", ownerValueIs(fv))
 		vp.Cover("C10.tampered-accepted")
